@@ -350,7 +350,7 @@ func init() {
 			"the block-layout simulation only feeds counters and target choice, never a verdict",
 		},
 		Quick: 10000, Thorough: 6000000,
-		Required: []string{"advance_absent_ns", "advance_later_ns", "advance_same_ns", "advance_first_call", "advance_after_next",
+		Required: []string{"ns_table_refilled", "advance_absent_ns", "advance_later_ns", "advance_same_ns", "advance_first_call", "advance_after_next",
 			"next_after_advance_later_ns", "next_after_advance_absent_ns", "block_fill_62", "block_fill_63", "block_fill_64", "overflow_65",
 			"ns_switch_at_full_block", "ns_switch_padded", "varint_10_bytes", "value_max_uint64", "list_empty", "list_multi_block",
 			"advance_beyond_end", "advance_lt_current", "advance_eq_current", "target_ns_in_table_absent_from_list"},
@@ -378,6 +378,16 @@ func c08run(c *core.Ctx) {
 		nss := make([]b6.Namespace, len(tableNS))
 		for i, ns := range tableNS {
 			nss[i] = b6.Namespace(ns)
+		}
+		if r.Chance(0.25) {
+			// a table object that served another index before: refilling it must
+			// give the table of a fresh one
+			var earlier []b6.Namespace
+			for _, i := range r.Perm(len(c08nsPool))[:r.Range(1, len(c08nsPool))] {
+				earlier = append(earlier, b6.Namespace(c08nsPool[i]))
+			}
+			nt.FillFromNamespaces(earlier)
+			c.Count("ns_table_refilled")
 		}
 		nt.FillFromNamespaces(nss)
 		if !sort.StringsAreSorted(tableNS) {
